@@ -386,6 +386,10 @@ const char *pfx_clean(struct pfx *pfx)
      * (probe and sink structures were allocated while paused) */
     const void *first = NULL; size_t fsz = 0;
     long live = hc_end(&first, &fsz);
+    if (live > 0 && first != NULL && getenv("VP_LEAK_DESCRIBE")) {
+        extern void __asan_describe_address(void *);   /* debugging aid: prints the allocation stack */
+        __asan_describe_address((void *)first);
+    }
     if (!r && live > 0) {
         snprintf(pfx->msg, sizeof(pfx->msg), "%ld heap allocation(s) made during the case are still live (first: %zu bytes)", live, fsz);
         r = pfx->msg;
